@@ -692,6 +692,92 @@ def main():
             th.join()
         if errs:
             failures.append("lookup thread: " + errs[0])
+        # ---- FIRST registration / subscription for a WIDE provided interface: the mutator has to extend the
+        # extendors of every interface in provided.__iro__ (add_extendor) before it may invalidate; a lookup
+        # for a base late in that order that runs in between must not leave its answer behind
+        sys.setswitchinterval(0.005)
+        wbases = [(Hooked if j == 0 else InterfaceClass)("IBase%d" % j, (Interface,), {"__module__": __name__}) for j in range(60)]
+        ILast = wbases[-1]
+        IWide = Hooked("IWide", tuple(wbases), {"__module__": __name__})
+
+        def wq(r):
+            return (r.lookup([II], ILast, ""), tuple(sorted(r.lookupAll([II], ILast))), tuple(sorted(r.subscriptions([II], ILast))),
+                    r.lookup([II], wbases[30], ""))
+
+        wide_mutators = [
+            ("register (first for a wide provided)", lambda r: r.register([II], IWide, "", "w")),
+            ("unregister (last for a wide provided)", lambda r: r.unregister([II], IWide, "")),
+            ("subscribe (first for a wide provided)", lambda r: r.subscribe([II], IWide, "sw")),
+            ("unsubscribe (last for a wide provided)", lambda r: r.unsubscribe([II], IWide, "sw")),
+        ]
+
+        def wide_fresh(reg):
+            tf = triple(AdapterRegistry)
+            populate(tf[0], [tuple(a) for a in reg.allRegistrations()], [tuple(a) for a in reg.allSubscriptions()])
+            return tuple(wq(x) for x in tf)
+
+        t = triple(AdapterRegistry)
+        for label, mut in wide_mutators:            # deterministic: lookups from the __hash__ of IWide / of its first base
+            before = {wq(x) for x in t}
+            during = set()
+            fired0 = state["n"]
+            hook[0] = lambda: (state.__setitem__("n", state["n"] + 1), during.update(wq(x) for x in t))
+            try:
+                mut(t[0])
+            except Exception as e:   # noqa
+                failures.append("%s raised %s: %s" % (label, type(e).__name__, str(e)[:100]))
+            hook[0] = None
+            after = tuple(wq(x) for x in t)
+            want = wide_fresh(t[0])
+            if after != want and len(failures) < 6:
+                failures.append("after %s with lookups from a key __hash__ inside it the registries answer %r, fresh ones %r"
+                                % (label, after, want))
+            judge_midway(label, during, before, set(after), None, "from a key __hash__")
+            if state["n"] == fired0:
+                failures.append("%s: no lookup ran inside it" % label)
+        sys.setswitchinterval(1e-6)
+        t = triple(AdapterRegistry)
+        stop[0] = False
+        del errs[:]
+
+        def wide_reader():
+            try:
+                while not stop[0]:
+                    for x in t:
+                        c0 = cur[0]
+                        a = wq(x)
+                        if c0 is not None and cur[0] == c0:
+                            seen_mid.setdefault(c0, set()).add(a)
+            except Exception as e:   # noqa
+                errs.append("%s: %s" % (type(e).__name__, str(e)[:100]))
+
+        ths = [threading.Thread(target=wide_reader) for _ in range(2)]
+        [x.start() for x in ths]
+        deadline = time.time() + (3.0 if n < 1000 else 30.0)
+        rounds = 0
+        try:
+            while time.time() < deadline and len(failures) < 6:
+                rounds += 1
+                for label, mut in wide_mutators:
+                    before = {wq(x) for x in t}
+                    call_id = ("wide", rounds, label)
+                    cur[0] = call_id
+                    try:
+                        mut(t[0])
+                    finally:
+                        cur[0] = None
+                    after = tuple(wq(x) for x in t)
+                    judge_midway(label, seen_mid.pop(call_id, set()), before, set(after), None, "from another thread")
+                    want = wide_fresh(t[0])
+                    if after != want:
+                        failures.append("round %d: after %s racing lookup threads the registries answer %r, fresh ones %r"
+                                        % (rounds, label, after, want))
+                        break
+        finally:
+            stop[0] = True
+            [x.join() for x in ths]
+        if errs:
+            failures.append("lookup thread: " + errs[0])
     else:
         failures.append("unknown scenario " + which)
     _boot.write_result({"summary": "survived, %d callbacks fired" % state["n"], "failures": failures, "findings": findings})
